@@ -93,14 +93,17 @@ def eqDflt (cs : List Ctx) (d : Option (List Ctx)) : Bool :=
   | none => false
   | some d => ctxEq cs d
 
-/-- `__get_context_for_triple`: `self.__tripleContexts.get(triple, self.__defaultContexts).keys()` -/
-def getCtxs (m : Mem) (t : Triple) : List Ctx :=
-  match alookup m.tctx t with
+/-- `self.__tripleContexts.get(triple, self.__defaultContexts).keys()` on the two dictionaries -/
+def getC (tctx : List (Triple × List Ctx)) (d : Option (List Ctx)) (t : Triple) : List Ctx :=
+  match alookup tctx t with
   | some cs => cs
   | none =>
-    match m.dflt with
+    match d with
     | some d => d
     | none => []
+
+/-- `__get_context_for_triple` -/
+def getCtxs (m : Mem) (t : Triple) : List Ctx := getC m.tctx m.dflt t
 
 /-- the call above raises (`None.keys()`) when there is neither an entry nor a default -/
 def getCtxsRaises (m : Mem) (t : Triple) : Bool :=
@@ -119,11 +122,13 @@ def hasCtxPinned (m : Mem) (t : Triple) (c : Ctx) : Bool :=
 def hasCtxRaises (m : Mem) (t : Triple) : Bool :=
   decide (t ∈ m.spo) && getCtxsRaises m t
 
-/-- `self.__contextTriples[k]`, empty when the key is absent (callers test the key first) -/
-def ctxTget (m : Mem) (k : Ctx) : List Triple :=
-  match alookup m.ctxT k with
+/-- `d[k]` for `d = __contextTriples`, empty when the key is absent (callers test the key first) -/
+def getT (l : List (Ctx × List Triple)) (k : Ctx) : List Triple :=
+  match alookup l k with
   | some ts => ts
   | none => []
+
+def ctxTget (m : Mem) (k : Ctx) : List Triple := getT m.ctxT k
 
 /-- `if k not in d: d[k] = set()` ; `d[k].add(t)` -/
 def ctxTadd (l : List (Ctx × List Triple)) (k : Ctx) (t : Triple) : List (Ctx × List Triple) :=
